@@ -325,8 +325,15 @@ impl GrammarBuilder {
                     ..Production::default()
                 };
 
-                // Inherit meta-data from Rule.
+                // Inherit meta-data from Rule. Associativity (`left`/`right`) is a
+                // single meta-data: if production defines it the rule-level one
+                // is not inherited.
+                let prod_has_assoc = new_production.meta.contains_key("left")
+                    || new_production.meta.contains_key("right");
                 for (key, data) in &rule.meta {
+                    if prod_has_assoc && (key == "left" || key == "right") {
+                        continue;
+                    }
                     if !new_production.meta.contains_key(key) {
                         new_production.meta.insert(key.clone(), data.clone());
                     }
